@@ -66,11 +66,29 @@ def stmt(rng, ints, bools, profile="full"):
     return {"op": "bselect", "x": rng.choice(bools), "c": rng.choice(bools), "y": rng.choice(bools), "z": rng.choice(bools)}
 
 
-def history(rng, hid, nints=3, nbools=1, nregs=3, length=10, profile="full", stutter=0, params=None):
+PROFILES = {
+    # weights: statements, variable-set ops, lattice ops, stuttering ops, queries
+    "c03": {"w": [55, 10, 20, 5, 10],
+            "lat": ["join", "join", "meet", "meet", "widen", "widenjoin", "narrow", "copy", "top", "bottom"],
+            "qry": ["leq", "entails", "entails", "entails", "isbot"]},
+    "c04": {"w": [30, 5, 38, 2, 25],
+            "lat": ["join", "join", "join", "meet", "meet", "meet", "copy", "top", "bottom", "widen"],
+            "qry": ["leq", "leq", "leq", "isbot", "istop"]},
+    "c16": {"w": [35, 5, 30, 20, 10],
+            "lat": ["copy", "copy", "copy", "join", "meet", "top", "bottom"],
+            "qry": ["leq", "entails", "isbot", "istop"]},
+}
+
+
+def history(rng, hid, nints=3, nbools=1, nregs=3, length=10, profile="c03", stmt_profile="full", stutter=0, params=None):
     ints = list(range(1, nints + 1))
     bools = list(range(nints + 1, nints + nbools + 1))
     names = ["x", "y", "z", "w", "u"]
     vars_ = [{"n": names[i - 1], "t": "int"} for i in ints] + [{"n": "b%d" % i, "t": "bool"} for i in bools]
+    prof = PROFILES[profile]
+    w = prof["w"]
+    tot = float(sum(w))
+    cut = [sum(w[:i + 1]) / tot for i in range(5)]
     steps = []
     regs = list(range(1, nregs + 1))
     # start every register from an explicit (often bounded) value so that histories are not all-top
@@ -80,9 +98,9 @@ def history(rng, hid, nints=3, nbools=1, nregs=3, length=10, profile="full", stu
     while len(steps) < length:
         r = rng.choice(regs)
         p = rng.random()
-        if p < 0.50:
-            steps.append({"op": "stmt", "r": r, "s": stmt(rng, ints, bools, profile)})
-        elif p < 0.58:
+        if p < cut[0]:
+            steps.append({"op": "stmt", "r": r, "s": stmt(rng, ints, bools, stmt_profile)})
+        elif p < cut[1]:
             k = rng.choice(["forget", "project", "rename", "expand"])
             allv = ints + bools
             if k == "forget":
@@ -95,8 +113,8 @@ def history(rng, hid, nints=3, nbools=1, nregs=3, length=10, profile="full", stu
             else:
                 a, b = rng.sample(ints, 2)
                 steps.append({"op": "expand", "r": r, "x": a, "y": b})
-        elif p < 0.80:
-            k = rng.choice(["join", "join", "meet", "meet", "widen", "widenjoin", "narrow", "copy", "top", "bottom"])
+        elif p < cut[2]:
+            k = rng.choice(prof["lat"])
             a, b = rng.choice(regs), rng.choice(regs)
             d = {"op": k, "r": r, "a": a, "b": b}
             if k in ("join", "meet") and rng.random() < 0.4:
@@ -109,10 +127,10 @@ def history(rng, hid, nints=3, nbools=1, nregs=3, length=10, profile="full", stu
             if k == "widen" and rng.random() < 0.3:
                 d["ts"] = sorted(rng.sample(range(-4, 6), rng.randint(0, 3)))
             steps.append(d)
-        elif p < 0.88:
+        elif p < cut[3]:
             steps.append({"op": rng.choice(["normalize", "minimize", "query"]), "r": r})
         else:
-            k = rng.choice(["leq", "leq", "entails", "entails", "isbot", "istop"])
+            k = rng.choice(prof["qry"])
             if k == "leq":
                 steps.append({"op": "leq", "r": 0, "a": rng.choice(regs), "b": rng.choice(regs)})
             elif k == "entails":
@@ -138,6 +156,17 @@ def is_nontrivial(h):
     return rel and lat
 
 
+# Domains whose exported constraints depend on internal laziness (terms without a ghost variable are not
+# exported until some operation materialises them): their projection is a sound over-approximation of the
+# meaning but two projections of the SAME meaning may differ, so equality-based judgements (C16) do not apply.
+LAZY_EXPORT = ("term_", "num_product", "uf")
+
+
+def exact_projection(dom):
+    d = dom[4:] if dom.startswith("ref_") else dom
+    return 0 if d.startswith(LAZY_EXPORT) else 1
+
+
 def merge(histories, replay_recs):
     """histories + dom_replay output lines -> trace records for spec/DomainOps.tla.
     Pure transport: decompresses the 'changed registers' encoding; adds no judgement."""
@@ -150,7 +179,7 @@ def merge(histories, replay_recs):
         obs = []
         for r in by_id.get(h["id"], []):
             if "err" in r:
-                obs.append({"dom": r["dom"], "err": 1, "why": r["err"], "steps": []})
+                obs.append({"dom": r["dom"], "err": 1, "exact": 0, "why": r["err"], "steps": []})
                 continue
             cur = {}
             out = []
@@ -170,6 +199,14 @@ def merge(histories, replay_recs):
                     if ch["r"] != tgt and ch["r"] in prev:
                         rec["oth"].append({"r": ch["r"], "p": prev[ch["r"]], "o": ch["o"]})
                 out.append(rec)
-            obs.append({"dom": r["dom"], "err": 0, "steps": out})
-        traces.append({"id": h["id"], "nv": len(kinds), "kinds": kinds, "nregs": h["nregs"], "steps": h["steps"], "obs": obs})
+            obs.append({"dom": r["dom"], "err": 0, "exact": exact_projection(r["dom"]), "steps": out})
+        # C16: pairs of (domain, same domain observed in place "#s") and (domain, type-erased wrapper "ref_<domain>")
+        names = [o["dom"] for o in obs]
+        pairs = []
+        for i, n in enumerate(names):
+            for j, m in enumerate(names):
+                if obs[i]["err"] == 0 and obs[j]["err"] == 0 and obs[i]["exact"] == 1 and (m == n + "#s" or m == "ref_" + n):
+                    pairs.append([i + 1, j + 1])
+        traces.append({"id": h["id"], "nv": len(kinds), "kinds": kinds, "nregs": h["nregs"], "steps": h["steps"], "obs": obs,
+                       "pairs": pairs})
     return traces
